@@ -216,8 +216,8 @@ def gate():
 
 def coq_build(timeout=2400):
     """full .vo build of /verif/coq (no -vos).  Returns (ok, log)."""
-    rc, out, _ = run("coq_makefile -f _CoqProject -o Makefile > /dev/null 2>&1 && "
-                     f"timeout {timeout} make -j{NPROC} 2>&1 | tail -40", cwd=COQ, timeout=timeout + 60)
+    rc, out, _ = run("flock .build.lock -c 'coq_makefile -f _CoqProject -o Makefile > /dev/null 2>&1 && "
+                     f"timeout {timeout} make -j{NPROC} 2>&1 | tail -40'", cwd=COQ, timeout=timeout + 60)
     ok = rc == 0 and "Error" not in out
     return ok, out
 
